@@ -468,6 +468,7 @@ pub fn gen_pipe_case(rng: &mut Rng, p: &Profile) -> PipeCase {
             short_pm: *rng.pick(&[0u16, 100, 500]),
             eintr_pm: *rng.pick(&[0u16, 50, 300]),
             seed: rng.next_u64(),
+            hard: None,
         }
     } else {
         ReadFaults::default()
